@@ -166,6 +166,26 @@ def Cases.eval : Cases β → Val → Env → Leaf β
   | .cons h t rest, v, ρ => if armMatches h.toExpr v then t.eval ρ else rest.eval v ρ
 end
 
+/-- no `let name = var` of a leaf shadows the variable a later one reads (true when pattern
+    variables are never spelled like column variables; checked on every real tree by the driver) -/
+def bindsOK : List Bind → Bool
+  | [] => true
+  | b :: bs => bs.all (fun c => c.var != b.name) && bindsOK bs
+
+mutual
+def leavesOK : DT β → Bool
+  | .leaf binds _ => bindsOK binds
+  | .missing _ => true
+  | .letProj _ _ _ _ _ rest => leavesOK rest
+  | .letGet _ _ _ _ _ _ rest => leavesOK rest
+  | .switch _ _ _ cases => casesOK cases
+def casesOK : Cases β → Bool
+  | .nil => true
+  | .dflt t => leavesOK t
+  | .cons _ t rest => leavesOK t && casesOK rest
+end
+
+
 /-! ## source-level meaning of patterns -/
 
 def litMatches (p : Prim) (v : Val) : Bool := (valEq (primVal p) v).getD false
